@@ -39,7 +39,7 @@ pub enum S {
     IncludeContent(Vec<S>),
     /// `r<k>: fn<i>();` a declaration calling a function (function bodies hold only an error slot)
     Call(usize, u32),
-    /// load file i: 0 = @import, 1 = meta.load-css
+    /// load file i: 0 = @import, 1 = meta.load-css, 2 = `@import "f<i>", "f<3-i>"` (two targets in one rule)
     Load(u8, usize),
 }
 
@@ -100,7 +100,7 @@ fn stmts(depth: u32, ctx: Ctx, allow_include: bool, allow_load: bool) -> BoxedSt
                 opts.push((1, stmts(d, ctx, false, false).prop_map(S::IncludeContent).boxed()));
             }
             if allow_load {
-                opts.push((1, (0u8..2, 1usize..3).prop_map(|(k, f)| S::Load(k, f)).boxed()));
+                opts.push((1, (0u8..3, 1usize..3).prop_map(|(k, f)| S::Load(k, f)).boxed()));
             }
         } else {
             // an at-rule inside a nested property block: Sass rejects it; dropping its content silently is the defect
@@ -237,6 +237,7 @@ impl Case {
                 S::Include(i) => out.push_str(&format!("@include m{i};\n")),
                 S::IncludeContent(b) => self.block("@include mc ", b, ind, loop_depth, out),
                 S::Load(0, f) => out.push_str(&format!("@import \"f{f}\";\n")),
+                S::Load(2, f) => out.push_str(&format!("@import \"f{f}\", \"f{}\";\n", 3 - f)),
                 S::Load(_, f) => out.push_str(&format!("@include meta.load-css(\"f{f}\");\n")),
             }
         }
@@ -334,12 +335,15 @@ impl Case {
                     self.walk(b, r);
                     self.walk(&self.mc_after, r);
                 }
-                S::Load(_, f) => {
-                    if r.loaded.contains(f) {
-                        r.reloaded = true;
+                S::Load(k, f) => {
+                    let targets = if *k == 2 { vec![*f, 3 - *f] } else { vec![*f] };
+                    for t in targets {
+                        if r.loaded.contains(&t) {
+                            r.reloaded = true;
+                        }
+                        r.loaded.push(t);
+                        self.walk(&self.files[t], r);
                     }
-                    r.loaded.push(*f);
-                    self.walk(&self.files[*f], r);
                 }
             }
         }
@@ -376,7 +380,7 @@ impl Prop for C21 {
         C21
     }
     fn rule(&self) -> String {
-        "programs (depth <= 3) with uniquely named markers - declarations `m<k>`, childless at-rules `@layer mark<k>;` and loud comments - in every container: style rules, nested property blocks (also with an at-rule inside), @media, @supports, @layer blocks, @if/@else, @each and @for loops of 0..2 rounds, two mixins, a mixin with @content, declarations calling two functions, a module loaded by @use, files loaded by @import and meta.load-css (at top level and below rules); in half of the cases one `@error \"E<k>e\"` is written at a random statement position (including function bodies, mixins, content blocks, loops and loaded files). Oracle: a reference walk tells which markers are reached how often and whether the @error is reached. If it is reached the compilation must fail. Otherwise the compilation fails, or every reached marker occurs in the output exactly as often as it was reached. Non-trivial: the @error is reached, or at least 3 markers are reached through a mixin, loop, load or property block; distinct by case".into()
+        "programs (depth <= 3) with uniquely named markers - declarations `m<k>`, childless at-rules `@layer mark<k>;` and loud comments - in every container: style rules, nested property blocks (also with an at-rule inside), @media, @supports, @layer blocks, @if/@else, @each and @for loops of 0..2 rounds, two mixins, a mixin with @content, declarations calling two functions, a module loaded by @use, files loaded by @import (also two targets in one rule) and meta.load-css (at top level and below rules); in half of the cases one `@error \"E<k>e\"` is written at a random statement position (including function bodies, mixins, content blocks, loops and loaded files). Oracle: a reference walk tells which markers are reached how often and whether the @error is reached. If it is reached the compilation must fail. Otherwise the compilation fails, or every reached marker occurs in the output exactly as often as it was reached. Non-trivial: the @error is reached, or at least 3 markers are reached through a mixin, loop, load or property block; distinct by case".into()
     }
     fn assumptions(&self) -> Vec<String> {
         vec![
